@@ -210,7 +210,7 @@ Fixpoint comp (fuel : nat) (jt : nat) (bodies : list (list op)) (b : nat) (ctx :
                                    (fun k => Log TAG_INIT [] (comp f jt bodies j ctx (fun gs' ahs' => drop_guards true gs' (detach_all ahs' k)) ((N.to_nat mx, false) :: gs ++ outer)))
                                    (Log TAG_CALLONCE [] (go r hs js gs ahs))
                        | _ => Panic end)
-         | PIsCompleted o => atomic_b (fun e st => once_is_completed e st o) (fun c => Log TAG_ISCOMPLETED [b2n c] (go r hs js gs ahs))
+         | PIsCompleted o => Switch (atomic_b (fun e st => once_is_completed e st o) (fun c => Log TAG_ISCOMPLETED [b2n c] (go r hs js gs ahs)))
          | PASpawn j =>
            Switch (SpawnNow
                      (atomic_b (fun e st => match wrapper_aborted e st jt with Some ab => Some (e, st, ab) | None => None end)
